@@ -1,12 +1,13 @@
-/* probe_re.c -- drives regex.c / rset.c of /repo (C10, C11).  Both files are included textually so
- * that the statics (rnode_parse, rnode_count, struct regex, struct rset) can be reached; their
- * objects are left out of the link.
+/* probe_re.c -- drives regex.c / rset.c of /repo (C10, C11).  regex.c is included textually so that
+ * the statics (rnode_parse, rnode_count, struct regex) can be reached; regex.o is left out of the
+ * link.  rset.c is used through its public interface only.
  *
  * request:  R <rset flags> <nsub> <pat,pat,...> <eflags:line,eflags:line,...>      (hex words, "-" = empty)
  * answer:   rej
  *           ok n=<emitted> res=<rnode_count + 3> | <case> | <case> ...
  *   case:   set=<index> g=<so>.<eo>,... cut=<re_verif_depthcut delta>     (g only when set >= 0)
  *           timeout cut=<n>      the call exceeded the CPU limit (env PROBE_RE_LIMIT_MS, default 2000)
+ * request:  C <pat,pat,...>     compile only (whatever the size): rej | ok n=<emitted> res=<rnode_count + 3>
  * Every pattern and line lives in an exact-size malloc block, so that the sanitizer sees any read
  * past a terminator.  Patterns whose reservation exceeds PROBE_RE_MAXRES are answered "big res=<n>"
  * without compiling them.
@@ -65,8 +66,14 @@ int main(void)
 		struct rnode *rn;
 		long res;
 		int emitted;
+		int componly;
 		nw = pu_words(l, w, 8);
-		if (nw < 5 || strcmp(w[0], "R")) {
+		componly = nw == 2 && !strcmp(w[0], "C");	/* C <pat,...>: compile only, no size shortcut */
+		if (componly) {
+			w[3] = w[1];
+			w[1] = w[2] = "0";
+			w[4] = "";
+		} else if (nw < 5 || strcmp(w[0], "R")) {
 			printf("?\n");
 			continue;
 		}
@@ -97,7 +104,7 @@ int main(void)
 		res = rn ? rnode_count(rn) + 3 : -1;
 		if (rn)
 			rnode_free(rn);
-		if (res > maxres) {
+		if (res > maxres && !componly) {
 			printf("big res=%ld\n", res);
 			goto done;
 		}
@@ -108,6 +115,13 @@ int main(void)
 				emitted = re->n;
 				regfree(&re);
 			}
+		}
+		if (componly) {
+			if (emitted < 0)
+				printf("rej\n");
+			else
+				printf("ok n=%d res=%ld\n", emitted, res);
+			goto done;
 		}
 		rs = rset_make(npat, pats, flg);
 		if (!rs) {
